@@ -112,10 +112,16 @@ func oracle(c cfg, o *vrt.Outcome) {
 	type gen struct {
 		act    []int64
 		counts []int
+		until  int64 // cost 0 only: the instant a Restart superseded this generation (-1: still current)
 	}
 	var gens []*gen
 	newGen := func(t0 int64, withFirstDelay bool) {
-		g := &gen{act: make([]int64, len(c.scheds)), counts: make([]int, len(c.scheds))}
+		for _, old := range gens {
+			if old.until < 0 {
+				old.until = t0
+			}
+		}
+		g := &gen{act: make([]int64, len(c.scheds)), counts: make([]int, len(c.scheds)), until: -1}
 		at := t0
 		for i, s := range c.scheds {
 			if i > 0 || withFirstDelay {
@@ -173,6 +179,9 @@ func oracle(c cfg, o *vrt.Outcome) {
 			open++
 			ok := false
 			for gi, g := range gens {
+				if o.Cost == 0 && g.until >= 0 && t > g.until {
+					continue // a prompt runner has processed the Restart by now
+				}
 				if fits(g, freq, t, o.Cost == 0) {
 					gens = gens[gi:]
 					ok = true
@@ -249,6 +258,8 @@ func scenariosFor(tier string) []vrt.Scenario {
 		add(b, s3, 0, sl(1300), stop)
 		add(b, s1, 0, stop)
 		add(b, s1, 0, restart, sl(101), cancel)
+		add(b, s1, ms(30), sl(110), cancel, stop) // interrupted run: the parent context is cancelled, then Stop, with an invocation in flight
+		add(b, s2, ms(30), sl(100), cancel, stop)
 		return out
 	}
 	for _, fn := range []time.Duration{0, ms(30), ms(120)} {
@@ -259,6 +270,7 @@ func scenariosFor(tier string) []vrt.Scenario {
 				add(2, sc, fn, sl(d), restart, sl(d), stop)
 			}
 			add(3, sc, fn, stop)
+			add(3, sc, fn, sl(110), cancel, stop)
 			add(3, sc, fn, restart, stop)
 			add(2, sc, fn, sl(150), restart, sl(1), restart, stop)
 		}
